@@ -67,6 +67,12 @@ def _expr_strategy(allow_cn):
             st.tuples(inner, inner).map(lambda t: "{REC}(%s, k=list(%s for _i in (0,)))" % t),
             st.tuples(inner, inner).map(lambda t: "{REC}(%s, k=(lambda: %s)())" % t),
         ]
+        # the recursion name used as a VALUE (an alias, an argument of map, a key function)
+        forms += [
+            inner.map(lambda a: "list(map({REC}, [%s]))[0]" % a),
+            inner.map(lambda a: "(lambda _r: _r(%s))({REC})" % a),
+            inner.map(lambda a: "[_r(%s) for _r in ({REC},)][0]" % a),
+        ]
         if allow_cn:
             forms += [st.just("{CN}(@Q(x))"), st.just("{CN}(@Q(x))"), st.just("{CN}(*[@Q(x)])"),
                       inner.map(lambda a: "{CN}(@Q(x), k=%s)" % a)]
